@@ -157,6 +157,10 @@ def execute(case, ctx):
             nb = len(model)
             try:
                 with rb.quiet():
+                    try:
+                        sim.process_messages()
+                    except RuntimeError:
+                        pass
                     if k == "snapshot":
                         sim.save_to_file(path)
                     elif k == "arm":
@@ -177,8 +181,11 @@ def execute(case, ctx):
                             probe("grew_past_128")
                     elif k == "add_overlap":
                         if sim.N - sim.N_var >= 1 and not sim.N_var:
+                            sim.ri_whfast.keep_unsynchronized = 0
+                            sim.ri_saba.keep_unsynchronized = 0
+                            sim.synchronize()       # careful-user protocol (see harness/ops.py): positions are read and a particle is added
                             q = sim.particles[op["pick"] % sim.N]
-                            sim.add(m=1e-9, x=q.x + 5e-5, y=q.y, z=q.z, vx=q.vx, vy=q.vy, vz=q.vz, r=1e-4, hash=op["hash"])
+                            OPS.apply(rebound, rb, sim, cfg, dict(op="add", p=dict(m=1e-9, x=q.x + 5e-5, y=q.y, z=q.z, vx=q.vx, vy=q.vy, vz=q.vz, r=1e-4, hash=op["hash"])))
                     elif k == "reopen":
                         if model:
                             new = rebound.Simulation(path)
@@ -230,7 +237,7 @@ def execute(case, ctx):
                              "op %d: expected at steps %s, taken at steps %s (value %r)" % (i, [e[0] for e in exp], [g[0] for g in got], state["auto_val"]),
                              key="cadence:%s" % state["auto_kind"])
                         break
-                elif k == "integrate" and len(model) != nb and not state.get("armed"):
+                elif k == "integrate" and len(model) != nb and not state.get("armed") and not state.get("cad_unknown"):
                     viol("cadence", "snapshot taken although no automatic cadence is armed", "op %d" % i)
                     break
             except (rebound.Escape, rebound.NoParticles, rebound.Encounter, rebound.Collision, rebound.GenericError, RuntimeError, AttributeError, ValueError) as e:
